@@ -22,6 +22,10 @@ pub(crate) use me_code::*;
 pub fn get_message(squitter: &str) -> Option<Vec<u32>> {
     clean_squitter(squitter)
         .filter(|message| matches!(message.len(), 14 | 28))
+        .filter(|message| {
+            // DF 0-15 are 56-bit frames, DF 16-31 112-bit frames
+            super::get_downlink_format(message).is_some_and(|df| (df >= 16) == (message.len() == 28))
+        })
         .filter(|message| reminder(message) == 0)
 }
 
